@@ -66,7 +66,7 @@ def configs(name, cls, n, d, rs, tier):
         space["base_kernel"] = ["linear", "rbf"]
     if name == "Kauri":
         space.update(max_clusters=[1, 2, 3, 5], max_depth=[None, 1, 2], min_samples_split=[2, 4], min_samples_leaf=[1, 2],
-                     max_features=[None, 1], max_leaves=[None, 2, 4])
+                     max_features=[None, 1, d, d + 2, 3 * d + 2], max_leaves=[None, 2, 4])
     keys = sorted(space)
     m = 36 if tier == "quick" else 160
     out = []
